@@ -9,7 +9,9 @@ package c15
 
 import (
 	"fmt"
+	"os"
 	"sort"
+	"strconv"
 	"time"
 
 	"verif/engine/ev"
@@ -21,9 +23,16 @@ type histStats struct {
 	bfsExecs, dfsExecs, varExecs int
 }
 
-func alphabet(snaps []int) []clirig.Event {
-	var l []clirig.Event
+func opsOf(thorough bool) []string {
 	ops := append(append([]string{}, clirig.RefreshOps...), clirig.ReadOps...)
+	if thorough {
+		ops = append(ops, clirig.MoreReadOps...)
+	}
+	return ops
+}
+
+func alphabet(ops []string, snaps []int) []clirig.Event {
+	var l []clirig.Event
 	for _, s := range snaps {
 		for _, op := range ops {
 			l = append(l, clirig.Event{Op: op, Snap: s})
@@ -58,6 +67,7 @@ type bfsOut struct {
 	perLevel    []int
 	samples     []interface{}
 	missByOp    map[string]int
+	fixpoint    int // >0: level at which no new state appeared
 }
 
 func extend(h []clirig.Event, e clirig.Event) []clirig.Event {
@@ -142,6 +152,9 @@ func bfs(c *ev.Check, r *runner, a *agg, layer string, events []clirig.Event, de
 		out.perLevel = append(out.perLevel, len(next))
 		frontier = next
 		if len(frontier) == 0 {
+			// no new state: the reachable graph over this alphabet is closed; deeper levels add nothing
+			out.fixpoint = d
+			out.completed = depth
 			break
 		}
 	}
@@ -217,98 +230,136 @@ func sortedKeys(m map[string]bool) []string {
 	return l
 }
 
+// differential runs the unpruned search to udepth and compares its key set and verdicts with a pruned BFS.
+func differential(c *ev.Check, r *runner, a *agg, name string, events []clirig.Event, b *bfsOut, udepth int, end time.Time) (map[string]interface{}, *bfsOut, bool) {
+	t0 := time.Now()
+	u, uok := unpruned(c, r, a, "history-unpruned", events, udepth, 0, false, end)
+	info := map[string]interface{}{"alphabet": name, "events": len(events), "unpruned_depth": udepth, "unpruned_executions": u.execs, "unpruned_distinct_keys": len(u.keys), "wall_s": time.Since(t0).Seconds()}
+	if !uok || (b.completed < udepth) {
+		info["result"] = "not completed (internal deadline)"
+		return info, u, false
+	}
+	onlyB, onlyU := diffKeys(b, u, udepth)
+	nb := 0
+	for _, d := range b.keys {
+		if d <= udepth {
+			nb++
+		}
+	}
+	info["pruned_keys_within_depth"] = nb
+	info["only_pruned"] = onlyB
+	info["only_unpruned"] = onlyU
+	info["verdict_signatures_pruned"] = sortedKeys(b.sigs)
+	info["verdict_signatures_unpruned"] = sortedKeys(u.sigs)
+	info["result"] = "same reachable key set, same verdicts"
+	if onlyB != 0 || onlyU != 0 {
+		info["result"] = "MISMATCH"
+		c.EngineError(fmt.Sprintf("canonicalisation differential failed (%s): %d keys only in the pruned BFS, %d only in the unpruned search (depth ≤ %d)", name, onlyB, onlyU, udepth))
+	}
+	for s := range u.sigs {
+		if !b.sigs[s] {
+			// the pruned search merges states, so it may attribute a defect to fewer signatures only if
+			// the key hides something: report it
+			info["result"] = "VERDICT MISMATCH"
+			c.EngineError("canonicalisation differential failed: verdict " + s + " seen only by the unpruned search")
+		}
+	}
+	return info, u, true
+}
+
+func bfsInfo(b *bfsOut, depth int, wall time.Duration) map[string]interface{} {
+	m := map[string]interface{}{"depth_bound": depth, "completed_depth": b.completed, "states": len(b.keys), "transitions": b.transitions, "new_states_per_level": b.perLevel,
+		"read_calls_judged": b.calls, "reads_that_refreshed_on_a_miss": b.misses, "reads_that_refreshed_by_api": b.missByOp, "responses_served_and_folded": b.served,
+		"distinct_observation_vectors": len(b.obsHashes), "wall_s": wall.Seconds()}
+	if b.fixpoint > 0 {
+		m["fixpoint"] = fmt.Sprintf("level %d produced no new state: the reachable state graph over this alphabet is closed, histories of any length stay inside the visited set", b.fixpoint)
+	}
+	return m
+}
+
 func historyLayer(c *ev.Check, r *runner, a *agg, thorough bool, end time.Time) (histStats, bool) {
 	var hs histStats
 	ok := true
-	depth, udepth := 3, 2
+	depth := 4
 	if thorough {
-		depth = 4
+		depth = 8
 	}
-	t0 := time.Now()
-	events := alphabet(allSnaps())
-	info := map[string]interface{}{"events": len(events), "event_ops": append(append([]string{}, clirig.RefreshOps...), clirig.ReadOps...), "snapshots": len(clirig.Snaps), "depth_bound": depth}
+	if v, err := strconv.Atoi(os.Getenv("VERIF_C15_DEPTH")); err == nil && v > 0 {
+		depth = v
+	}
+	ops := opsOf(thorough)
+	events := alphabet(ops, allSnaps())
+	info := map[string]interface{}{"events": len(events), "event_ops": ops, "snapshots": len(clirig.Snaps), "depth_bound": depth,
+		"event_rule": "event = (operation, snapshot): the cluster switches to the snapshot, then the operation runs (R = RefreshMetadata(), R:x = RefreshMetadata(x), the others are read API calls that refresh by themselves on a miss); after the last event of an execution ALL read APIs for topics t,u × partitions 0..2 are compared with the reference fold"}
 	var names []string
 	for _, s := range clirig.Snaps {
 		names = append(names, s.Name)
 	}
 	info["snapshot_names"] = names
+	total := time.Until(end)
 
-	// the differential pass first (it is the smaller one and validates the canonicalisation the BFS relies on)
-	budget := time.Until(end)
-	u, uok := unpruned(c, r, a, "history-unpruned", events, udepth, 0, false, time.Now().Add(budget*30/100))
-	hs.dfsExecs += u.execs
-	info["unpruned_depth"] = udepth
-	info["unpruned_executions"] = u.execs
-	info["unpruned_distinct_keys"] = len(u.keys)
-	info["unpruned_wall_s"] = time.Since(t0).Seconds()
-	t1 := time.Now()
-
-	// variants (shallower): Retry.Max=1 and Metadata.Full=false
-	vdepth := depth - 1
-	if !thorough {
-		vdepth = 2
-	}
-	vEnd := time.Now().Add(time.Until(end) * 25 / 100)
-	var variants []map[string]interface{}
-	for _, v := range []struct {
-		rm   int
-		part bool
-	}{{1, false}, {0, true}} {
-		tv := time.Now()
-		b := bfs(c, r, a, "history", events, vdepth, v.rm, v.part, vEnd)
-		hs.varExecs += b.execs
-		hs.states += len(b.keys)
-		hs.transitions += b.transitions
-		if b.completed < vdepth {
-			ok = false
-		}
-		variants = append(variants, map[string]interface{}{"retry_max": v.rm, "metadata_full": !v.part, "depth_bound": vdepth, "completed_depth": b.completed, "states": len(b.keys),
-			"transitions": b.transitions, "new_states_per_level": b.perLevel, "read_calls_judged": b.calls, "reads_that_refreshed": b.misses, "responses_served": b.served, "wall_s": time.Since(tv).Seconds()})
-	}
-	info["variants"] = variants
-	t2 := time.Now()
-
-	b := bfs(c, r, a, "history", events, depth, 0, false, end)
+	// main BFS (Retry.Max=0, Metadata.Full=true)
+	t0 := time.Now()
+	b := bfs(c, r, a, "history", events, depth, 0, false, time.Now().Add(total*45/100))
 	hs.bfsExecs = b.execs
 	hs.states += len(b.keys)
 	hs.transitions += b.transitions
+	info["bfs"] = bfsInfo(b, depth, time.Since(t0))
 	if b.completed < depth {
 		ok = false
 		info["cut_by_internal_deadline"] = fmt.Sprintf("BFS completed depth %d of %d (%d transitions executed)", b.completed, depth, b.transitions)
 	}
-	info["bfs_completed_depth"] = b.completed
-	info["bfs_states"] = len(b.keys)
-	info["bfs_transitions"] = b.transitions
-	info["bfs_new_states_per_level"] = b.perLevel
-	info["bfs_wall_s"] = time.Since(t2).Seconds()
-	info["read_calls_judged"] = b.calls + u.calls
-	info["reads_that_refreshed_on_a_miss"] = b.misses + u.misses
-	info["reads_that_refreshed_by_api"] = b.missByOp
-	info["responses_served_and_folded"] = b.served + u.served
-	info["distinct_observation_vectors"] = len(b.obsHashes)
+	fmt.Printf("  history: BFS depth %d/%d fixpoint@%d: %d states, %d transitions, levels %v (%.1fs)\n", b.completed, depth, b.fixpoint, len(b.keys), b.transitions, b.perLevel, time.Since(t0).Seconds())
 
-	// differential check of the canonicalisation
-	if uok && b.completed >= udepth {
-		onlyB, onlyU := diffKeys(b, u, udepth)
-		info["differential"] = fmt.Sprintf("keys reachable within depth %d: pruned BFS %d, unpruned search %d, only-pruned %d, only-unpruned %d; verdict signatures pruned %v unpruned %v",
-			udepth, len(u.keys)-onlyU+onlyB, len(u.keys), onlyB, onlyU, sortedKeys(b.sigs), sortedKeys(u.sigs))
-		if onlyB != 0 || onlyU != 0 {
-			c.EngineError(fmt.Sprintf("canonicalisation differential failed: %d keys only in the pruned BFS, %d only in the unpruned search (depth ≤ %d)", onlyB, onlyU, udepth))
-		}
-		for s := range u.sigs {
-			if !b.sigs[s] {
-				c.EngineError("canonicalisation differential failed: verdict " + s + " seen only by the unpruned search")
-			}
-		}
-	} else {
-		ok = false
-		info["differential"] = "not completed (internal deadline)"
+	// differential check of the canonicalisation: unpruned search, all histories of length ≤ 2 over the full alphabet
+	var diffs []map[string]interface{}
+	d1, u, dok := differential(c, r, a, "full", events, b, 2, time.Now().Add(time.Until(end)*50/100))
+	hs.dfsExecs += u.execs
+	diffs = append(diffs, d1)
+	ok = ok && dok
+	fmt.Printf("  history: unpruned depth 2: %d execs, %d keys: %v (%.1fs)\n", u.execs, len(u.keys), d1["result"], d1["wall_s"])
+	if thorough {
+		// … and of length ≤ 3 over a sub-alphabet (all operations × 8 snapshots), against a BFS over the same sub-alphabet
+		sub := alphabet(opsOf(false), []int{0, 2, 4, 6, 7, 10, 12, 14})
+		tb := time.Now()
+		sb := bfs(c, r, a, "history", sub, 3, 0, false, time.Now().Add(time.Until(end)*20/100))
+		hs.varExecs += sb.execs
+		d2, u2, dok2 := differential(c, r, a, "quick-tier operations × snapshots {0,2,4,6,7,10,12,14}", sub, sb, 3, time.Now().Add(time.Until(end)*60/100))
+		d2["pruned_bfs"] = bfsInfo(sb, 3, time.Since(tb))
+		hs.dfsExecs += u2.execs
+		diffs = append(diffs, d2)
+		ok = ok && dok2
+		fmt.Printf("  history: unpruned depth 3 (sub-alphabet %d events): %d execs, %d keys: %v (%.1fs)\n", len(sub), u2.execs, len(u2.keys), d2["result"], d2["wall_s"])
 	}
+	info["differential_of_canonicalisation"] = diffs
+
+	// variants: Retry.Max=1 (retries after LEADER_NOT_AVAILABLE / UNKNOWN_TOPIC are further folded responses) and Metadata.Full=false
+	vdepth := depth
+	if !thorough {
+		vdepth = 2
+	}
+	var variants []map[string]interface{}
+	for i, v := range []struct {
+		rm   int
+		part bool
+	}{{1, false}, {0, true}} {
+		tv := time.Now()
+		vb := bfs(c, r, a, "history", events, vdepth, v.rm, v.part, time.Now().Add(time.Until(end)/time.Duration(2-i)))
+		hs.varExecs += vb.execs
+		hs.states += len(vb.keys)
+		hs.transitions += vb.transitions
+		if vb.completed < vdepth {
+			ok = false
+		}
+		m := bfsInfo(vb, vdepth, time.Since(tv))
+		m["retry_max"], m["metadata_full"] = v.rm, !v.part
+		variants = append(variants, m)
+		fmt.Printf("  history: variant rm=%d full=%v: depth %d/%d fixpoint@%d, %d states, %d transitions (%.1fs)\n", v.rm, !v.part, vb.completed, vdepth, vb.fixpoint, len(vb.keys), vb.transitions, time.Since(tv).Seconds())
+	}
+	info["variants"] = variants
 	for _, s := range b.samples {
 		c.AddSample(s)
 	}
 	c.Set("history", info)
-	fmt.Printf("  history: unpruned depth %d: %d execs, %d keys (%.1fs); variants %.1fs; BFS depth %d/%d: %d states, %d transitions, levels %v (%.1fs)\n",
-		udepth, u.execs, len(u.keys), t1.Sub(t0).Seconds(), t2.Sub(t1).Seconds(), b.completed, depth, len(b.keys), b.transitions, b.perLevel, time.Since(t2).Seconds())
 	return hs, ok
 }
